@@ -231,7 +231,21 @@ func mutateLines(t *rapid.T, format string, doc []byte, other []byte) []byte {
 			lines = []string{""}
 		}
 		k := rapid.IntRange(0, len(lines)-1).Draw(t, "line")
-		switch rapid.IntRange(0, 10).Draw(t, "op") {
+		switch rapid.IntRange(0, 11).Draw(t, "op") {
+		case 11: // one cell of the line (between commas, blanks, colons) replaced by a degenerate value, the others kept
+			seps := func(r rune) bool { return r == ',' || r == ' ' || r == ':' }
+			toks := strings.FieldsFunc(lines[k], seps)
+			if len(toks) > 0 {
+				tok := toks[rapid.IntRange(0, len(toks)-1).Draw(t, "cell")]
+				v := rapid.SampledFrom([]string{"&H", "&", "&H&", "&HFFFFFFFFFFFFFFFFFF", "H", "-", "--", "-0", "0x", "", "9999999999999999999", "1e9", "NaN", "%", "\u00a0", "{", "}", "<", "\\"}).Draw(t, "cellvalue")
+				if at := strings.Index(lines[k], tok); at >= 0 {
+					// the last occurrence as often as the first: trailing columns are where a short line still parses
+					if rapid.Bool().Draw(t, "lastcell") {
+						at = strings.LastIndex(lines[k], tok)
+					}
+					lines[k] = lines[k][:at] + v + lines[k][at+len(tok):]
+				}
+			}
 		case 9: // cut the line at any byte, or drop its head
 			if len(lines[k]) > 1 {
 				cut := rapid.IntRange(1, len(lines[k])-1).Draw(t, "cutat")
@@ -342,7 +356,15 @@ func hostileSTL(t *rapid.T, doc []byte) []byte {
 	set := func(off int, s string) { copy(doc[off:], s) }
 	n := rapid.IntRange(1, 3).Draw(t, "nmut")
 	for i := 0; i < n; i++ {
-		switch rapid.IntRange(0, 11).Draw(t, "sop") {
+		switch rapid.IntRange(0, 12).Draw(t, "sop") {
+		case 12:
+			// one header byte of a TTI block (group, subtitle number, extension block number, cumulative status, vertical
+			// position, justification, comment flag) set to every kind of value, first block included
+			if len(doc) >= 1024+128 {
+				k := 1024 + 128*rapid.SampledFrom([]int{0, 0, rapid.IntRange(0, (len(doc)-1024)/128-1).Draw(t, "hblk")}).Draw(t, "hblkpick")
+				off := rapid.SampledFrom([]int{0, 1, 2, 3, 4, 4, 4, 13, 14, 15}).Draw(t, "hoff")
+				doc[k+off] = rapid.SampledFrom([]byte{0, 1, 2, 3, 4, 0x7f, 0x80, 0xef, 0xf0, 0xfe, 0xff}).Draw(t, "hval")
+			}
 		case 0:
 			set(3, rapid.SampledFrom([]string{"STL24.01", "        ", "STL25.02", "stl25.01", "STL00.01", "\x00\x00\x00\x00\x00\x00\x00\x00"}).Draw(t, "dfc"))
 		case 1:
